@@ -33,7 +33,7 @@ var watchScopes = []string{"client", "db", "coll"}
 
 // a write into one of three namespaces: db.c (the watched one), db.d, other.c
 func genWrite(r *gen.R) sched.Op {
-	op := sched.Op{Kind: []string{"ins", "ins", "inc", "del"}[r.N(4)]}
+	op := sched.Op{Kind: []string{"ins", "ins3", "ins3", "inc", "del"}[r.N(5)]}
 	switch r.N(4) {
 	case 0:
 		op.Coll = "d"
@@ -54,7 +54,7 @@ func genPolls(r *gen.R, slot, n int) []sched.Op {
 }
 
 func genWatchScenario(r *gen.R) (sched.Scenario, sched.Chooser) {
-	kinds := []string{"deliver", "deliver", "resume", "drop", "wake", "race", "race", "retention", "retention"}
+	kinds := []string{"deliver", "deliver", "resume", "drop", "wake", "race", "race", "retention", "retention", "mix", "mix"}
 	return genWatchKind(r, kinds[r.N(len(kinds))])
 }
 
@@ -125,6 +125,41 @@ func genWatchKind(r *gen.R, kind string) (sched.Scenario, sched.Chooser) {
 		}
 		at := []string{"next.oplog", "next.wait", "next.locked"}[r.N(3)]
 		ch = &sched.Directed{Steps: []sched.Directive{{Actor: 1, Until: at}, {Actor: 2, Until: "op.start"}, {Actor: 1, Until: "done"}}, Then: ch}
+	case "mix":
+		// "block for the first event, poll for the rest" and its mirror images: Next and TryNext mixed
+		// on ONE stream while commits append several events at once (InsertMany) or several commits
+		// coalesce into one signal; the consumer first runs until it is blocked (or done), then the
+		// writers run completely, then the consumer drains
+		var cons []sched.Op
+		switch r.N(4) {
+		case 0: // block first, then poll
+			cons = []sched.Op{{Kind: "next", Stream: 1}, {Kind: "trynext", Stream: 1}, {Kind: "trynext", Stream: 1}, {Kind: "trynext", Stream: 1}}
+		case 1: // empty poll, block, poll
+			cons = []sched.Op{{Kind: "trynext", Stream: 1}, {Kind: "next", Stream: 1}, {Kind: "trynext", Stream: 1}, {Kind: "trynext", Stream: 1}}
+		case 2: // alternating
+			cons = []sched.Op{{Kind: "next", Stream: 1}, {Kind: "trynext", Stream: 1}, {Kind: "next", Stream: 1}, {Kind: "trynext", Stream: 1}, {Kind: "trynext", Stream: 1}}
+		default:
+			cons = genPolls(r, 1, 3+r.N(3))
+		}
+		cons = append([]sched.Op{{Kind: "watch", Stream: 1, Scope: scope}}, cons...)
+		var wr []sched.Op
+		switch r.N(3) {
+		case 0:
+			wr = []sched.Op{{Kind: "ins3"}}
+		case 1:
+			wr = []sched.Op{{Kind: "ins"}, {Kind: "ins"}, {Kind: "ins"}}
+		default:
+			wr = []sched.Op{{Kind: "ins3"}, {Kind: "ins3"}}
+		}
+		sc.Actors = [][]sched.Op{cons, wr}
+		steps := []sched.Directive{{Actor: 1, Until: "done"}, {Actor: 2, Until: "done"}, {Actor: 1, Until: "done"}}
+		if r.P(40) {
+			// two commits with the consumer draining in between
+			steps = []sched.Directive{{Actor: 1, Until: "done"}, {Actor: 2, Until: "op.start"}, {Actor: 1, Until: "done"}, {Actor: 2, Until: "done"}, {Actor: 1, Until: "done"}}
+		}
+		if r.P(70) {
+			ch = &sched.Directed{Steps: steps, Then: ch}
+		}
 	case "retention":
 		// old events + a small size window: new commits discard old events
 		sc.Preload = 5 + r.N(3)
@@ -246,6 +281,7 @@ func watchThorough() []run.Case {
 			{Kind: "deliver", Watch: true, Actors: [][]sched.Op{{w("client", ""), nx}, {{Kind: "ins"}}}},
 			{Kind: "deliver", Watch: true, Actors: [][]sched.Op{{w("coll", ""), nx, tn}, {{Kind: "ins", Coll: "d"}, {Kind: "ins"}}}},
 			{Kind: "deliver", Watch: true, Actors: [][]sched.Op{{w("db", ""), nx}, {{Kind: "ins", DB: "other"}}, {{Kind: "inc"}}}},
+			{Kind: "mix", Watch: true, Actors: [][]sched.Op{{w("coll", ""), nx, tn, tn}, {{Kind: "ins3"}}}},
 			{Kind: "drop", Watch: true, Actors: [][]sched.Op{{w("coll", ""), nx, nx}, {{Kind: "drop"}}}},
 			{Kind: "wake", Watch: true, Actors: [][]sched.Op{{w("client", ""), nx}, {{Kind: "close"}}}},
 			{Kind: "wake", Watch: true, Actors: [][]sched.Op{{w("client", ""), nx}, {{Kind: "sclose", Stream: 1}}}},
@@ -330,6 +366,28 @@ func watchCorpus() []run.Case {
 			}}
 			ch := &sched.Directed{Steps: []sched.Directive{{Actor: 1, Until: at}, {Actor: 2, Until: "done"}, {Actor: 1, Until: "done"}}}
 			out = append(out, watchCase(sc, ch))
+		}
+	}
+	// "block for the first event, poll for the rest" (and the mirror images): the consumer is parked in
+	// Next, ONE commit appends three events (or three commits coalesce into one signal), Next returns the
+	// first, the following TryNext calls must deliver the rest without any further commit
+	{
+		nx, tn := sched.Op{Kind: "next", Stream: 1}, sched.Op{Kind: "trynext", Stream: 1}
+		w := sched.Op{Kind: "watch", Stream: 1, Scope: "coll"}
+		one := []sched.Directive{{Actor: 1, Until: "done"}, {Actor: 2, Until: "done"}, {Actor: 1, Until: "done"}}
+		two := []sched.Directive{{Actor: 1, Until: "done"}, {Actor: 2, Until: "op.start"}, {Actor: 1, Until: "done"}, {Actor: 2, Until: "done"}, {Actor: 1, Until: "done"}}
+		for _, v := range []struct {
+			cons, wr []sched.Op
+			steps    []sched.Directive
+		}{
+			{[]sched.Op{w, nx, tn, tn, tn}, []sched.Op{{Kind: "ins3"}}, one},
+			{[]sched.Op{w, nx, tn, tn, tn}, []sched.Op{{Kind: "ins"}, {Kind: "ins"}, {Kind: "ins"}}, one},
+			{[]sched.Op{w, tn, nx, tn, tn, tn}, []sched.Op{{Kind: "ins3"}}, one},
+			{[]sched.Op{w, nx, tn, nx, tn, tn, tn, tn}, []sched.Op{{Kind: "ins3"}, {Kind: "ins3"}}, two},
+			{[]sched.Op{w, nx, tn, tn, nx, tn, tn, tn}, []sched.Op{{Kind: "ins3"}, {Kind: "ins3"}}, two},
+		} {
+			sc := sched.Scenario{Kind: "mix", Watch: true, Actors: [][]sched.Op{v.cons, v.wr}}
+			out = append(out, watchCase(sc, &sched.Directed{Steps: v.steps}))
 		}
 	}
 	// a collection stream whose collection does not exist is invalidated by dropDatabase alone
